@@ -210,7 +210,7 @@ func c16Invalidations() []invDev {
 	for _, mix := range []struct {
 		n    string
 		keys []any
-	}{{"int64-then-invalid-utf8", []any{int64(7), "k\xff"}}, {"int-then-invalid-utf8", []any{7, "k\xff"}}, {"text-int64-then-invalid-utf8", []any{"io.example.ok", int64(7), "k\xff"}}, {"uint8-then-invalid-utf8", []any{uint8(9), "k\xfe"}}} {
+	}{{"int64-then-invalid-utf8", []any{int64(1000), "k\xff"}}, {"int-then-invalid-utf8", []any{1000, "k\xff"}}, {"text-int64-then-invalid-utf8", []any{"io.example.ok", int64(1000), "k\xff"}}, {"uint8-then-invalid-utf8", []any{uint8(200), "k\xfe"}}} {
 		mix := mix
 		post("cose-ext-keys="+mix.n, "ext", "cose", "", func(r *reqSpec, req *signature.SignRequest, rs *envenc.RemoteSigner) {
 			req.ExtendedSignedAttributes = nil
